@@ -1,6 +1,7 @@
 import Percival.Proofs.AfMonRel
 import Percival.Proofs.AllocFail
 import Percival.Proofs.HeapRun
+import Percival.Proofs.HeapCreateAlloc
 /-!
 # C14: the pointer-heap piece of the relation between `pmodel af` and the monitor `pmodel afmon`
 
@@ -9,7 +10,7 @@ bookkeeping `s.hlive` / `s.keys` of the model state; the model's heap `s.h` exis
 does, holds exactly the live ids, satisfies C13's invariant under the current keys (`Proofs.Heap.Inv`) and the
 storage invariant `AllocFail.HInv`.
 
-`heap_step`: for every operation but `end`, `HeapRel` is preserved by `next`, and for the five heap operations
+`heap_step`: for every operation but `end`, `HeapRel` is preserved by `next`, and for the six heap operations
 the monitor accepts the model's answer.
 -/
 namespace Percival.Proofs.AfMonHeap
@@ -37,7 +38,7 @@ structure HeapRel (s : S) (ms : MState) : Prop where
 theorem heapRel_init : HeapRel {} {} := ⟨rfl, fun _ => rfl, fun _ h => by cases h⟩
 
 def isHeapOp : Op → Bool
-  | .hInit | .hAdd _ _ | .hMin | .hDelmin | .hFree => true
+  | .hInit | .hAdd _ _ | .hMin | .hDelmin | .hFree | .hCreate _ => true
   | _ => false
 
 /-! ## pigeonhole: at most `n` distinct naturals below `n` -/
@@ -302,10 +303,83 @@ theorem hFree_ok (s : S) (ms : MState) (h : HeapRel s ms) :
     simp
     exact ⟨h.keys, fun _ => rfl, fun _ hh => (by cases hh)⟩
 
+/-! ## `hCreate` -/
+
+theorem distinct_iff_nodup : ∀ l : List Nat, distinct l = true ↔ l.Nodup
+  | [] => by simp [distinct]
+  | x :: r => by
+    simp only [distinct, Bool.and_eq_true, Bool.not_eq_true', List.nodup_cons, distinct_iff_nodup r]
+    constructor
+    · rintro ⟨h1, h2⟩; exact ⟨by intro hm; simp [hm] at h1, h2⟩
+    · rintro ⟨h1, h2⟩; exact ⟨by simpa using h1, h2⟩
+
+/-- a `h_create` line that is carried out names distinct ids the harness can name (so at most 4096 of them) -/
+theorem createSkip_false (els : List (Nat × Int)) (h : createSkip els = false) :
+    (els.map (·.1)).Nodup ∧ (∀ e ∈ els.map (·.1), e < MAXID) ∧ (els.map (·.1)).length ≤ 4096 := by
+  simp only [createSkip, Bool.or_eq_false_iff, Bool.not_eq_false'] at h
+  have hnd := (distinct_iff_nodup _).mp h.2
+  have hsm : ∀ e ∈ els.map (·.1), e < MAXID := by
+    intro e he
+    obtain ⟨p, hp, rfl⟩ := List.mem_map.mp he
+    have := h.1
+    rw [List.any_eq_false] at this
+    have := this p hp
+    simpa using this
+  exact ⟨hnd, hsm, nodup_length_le 4096 _ hnd hsm⟩
+
+theorem stepOp_hCreate_skip (s : S) (els : List (Nat × Int)) (hc : createSkip els = true) :
+    stepOp s (.hCreate els) = (s, .word .skip) := by
+  simp only [stepOp, hc, if_true]
+
+theorem stepOp_hCreate_go (s : S) (els : List (Nat × Int)) (hc : createSkip els = false) :
+    stepOp s (.hCreate els) =
+      match HeapAlloc.create (keyFn (els ++ s.keys)) (els.map (·.1)) (initMem s) with
+      | (some ha, m') => ({ s with m := m', h := some ha, keys := els ++ s.keys, hlive := els.map (·.1) },
+          .heap true (rf (initMem s) m') none (hView (some ha) (initMem s) m'))
+      | (none, m') => ({ s with m := m', h := none, keys := els ++ s.keys, hlive := [] },
+          .heap false (rf (initMem s) m') none (hView none (initMem s) m')) := by
+  simp only [stepOp, hc]
+  rfl
+
+theorem hCreate_ok (s : S) (ms : MState) (els : List (Nat × Int)) (h : HeapRel s ms) :
+    Accepts s ms (.hCreate els) ∧ HeapRel (next s ms (.hCreate els)).1 (next s ms (.hCreate els)).2 := by
+  simp only [Accepts, next, ansOf]
+  cases hc : createSkip els with
+  | true =>
+    simp only [stepOp_hCreate_skip s els hc, Out.ans, monStep, hc, if_true, accept, Ans.isJust]
+    exact ⟨by simp, h⟩
+  | false =>
+    obtain ⟨hnd, hsm, hlen⟩ := createSkip_false els hc
+    simp only [stepOp_hCreate_go s els hc]
+    generalize initMem s = m0
+    have hs := Percival.Proofs.HeapCreateAlloc.create_spec (keyFn (els ++ s.keys)) (els.map (·.1)) m0
+    rcases hres : HeapAlloc.create (keyFn (els ++ s.keys)) (els.map (·.1)) m0 with ⟨_ | ha, m'⟩
+    · rw [hres] at hs ⊢
+      simp only at hs
+      have hrf : rf m0 m' > 0 := by
+        simp only [rf]
+        rcases hs.2 with h1 | h1
+        · omega
+        · simp only [Percival.Proofs.EArray.SIZE_MAX_eq] at h1; omega
+      simp only [Out.ans, monStep, hc, Ans.failRefused, Ans.rfn]
+      simp [hrf]
+      exact ⟨by rw [h.keys], fun _ => rfl, fun _ hh => by cases hh⟩
+    · rw [hres] at hs ⊢
+      simp only at hs
+      obtain ⟨hh, hhinv, _, hrf, _⟩ := hs
+      have hrf0 : rf m0 m' = 0 := by simp only [rf]; omega
+      simp only [Out.ans, monStep, hc, Ans.rfn, hrf0]
+      simp
+      refine ⟨by rw [h.keys], fun hh' => (by cases hh'), fun ha' hh' => ?_⟩
+      cases hh'
+      refine ⟨rfl, hnd, hsm, ?_, ?_, hhinv⟩
+      · rw [hh]; exact Percival.Proofs.Heap.create_perm _ _
+      · rw [hh]; exact Percival.Proofs.Heap.create_inv _ _ hnd
+
 /-! ## all operations -/
 
 /-- the heap piece of the relation is kept by every operation but `end` (assuming nothing about the other
-pieces), and the monitor accepts the model's answer to each of the five heap operations -/
+pieces), and the monitor accepts the model's answer to each of the six heap operations -/
 theorem heap_step (s : S) (ms : MState) (op : Op) (hop : op ≠ .end_) (h : HeapRel s ms) :
     (isHeapOp op = true → Accepts s ms op) ∧ HeapRel (next s ms op).1 (next s ms op).2 := by
   cases hh : isHeapOp op with
@@ -317,6 +391,7 @@ theorem heap_step (s : S) (ms : MState) (op : Op) (hop : op ≠ .end_) (h : Heap
     · exact ⟨fun _ => (hMin_ok s ms h).1, (hMin_ok s ms h).2⟩
     · exact ⟨fun _ => (hDelmin_ok s ms h).1, (hDelmin_ok s ms h).2⟩
     · exact ⟨fun _ => (hFree_ok s ms h).1, (hFree_ok s ms h).2⟩
+    · exact ⟨fun _ => (hCreate_ok s ms _ h).1, (hCreate_ok s ms _ h).2⟩
 
 /-- along any sequence of operations without `end`: `HeapRel` holds throughout -/
 theorem heapRel_run (ops : List Op) (hops : ∀ op ∈ ops, op ≠ .end_) :
